@@ -1290,7 +1290,8 @@ def st_case(draw):  # noqa: C901, PLR0912, PLR0915
                 chosen = [j for j in chosen if not any(j in anc[k] for k in chosen if k != j)]
             for j in chosen:
                 pj = case_ctx["params"][j]
-                if pj and allow_known and chance(draw, 1, 3):
+                # (TypedDict classes always get their own __orig_bases__, bare bases work there -> always allowed)
+                if pj and (allow_known or kind == "typeddict") and chance(draw, 1, 3 if allow_known else 6):
                     bases.append({"cls": j, "args": None})
                     continue
                 args = draw(st_args_for(case_ctx, j, params, False, allow_known)) if pj else None
@@ -1405,6 +1406,20 @@ def fixed_cases():
              "explicit": True}
     yield _c("dataclass", [par, child], {"cls": 1, "args": None})
     yield _c("attrs", [par, child], {"cls": 1, "args": None})
+    yield _c("typeddict", [par, child], {"cls": 1, "args": None})       # works: TypedDict has its own __orig_bases__
+    # (b) a ground subclass loses its parent's re-annotation;  (c) the side of a second ground base is lost
+    two = {"params": ["T0"], "bases": [], "explicit": True,
+           "fields": [{"name": "a", "ann": tv("T0")}, {"name": "b", "ann": tv("T0")}]}
+    over = {"params": [], "bases": [{"cls": 0, "args": [["int"]]}], "explicit": True,
+            "fields": [{"name": "a", "ann": ["genbare", 0]}]}
+    sub = {"params": [], "bases": [{"cls": 1, "args": None}], "fields": [], "explicit": True}
+    other = {"params": ["T1"], "bases": [], "fields": [{"name": "x", "ann": tv("T1")}], "explicit": True}
+    c1 = {"params": [], "bases": [{"cls": 0, "args": [["int"]]}], "fields": [], "explicit": True}
+    c2 = {"params": [], "bases": [{"cls": 1, "args": [["str"]]}], "fields": [], "explicit": True}
+    both = {"params": [], "bases": [{"cls": 2, "args": None}, {"cls": 3, "args": None}], "fields": [], "explicit": True}
+    for kind in ("dataclass", "attrs"):
+        yield _c(kind, [two, over, sub], {"cls": 2, "args": None}, slots=False)
+        yield _c(kind, [par, other, c1, c2, both], {"cls": 4, "args": None}, slots=False)
     # only a TypeVarTuple: bare / empty
     var = [{"params": [TVT], "bases": [], "fields": [{"name": "a", "ann": ["tup", [["unpack", TVT]]]},
                                                      {"name": "b", "ann": ["int"]}], "explicit": True}]
